@@ -1,4 +1,351 @@
 package mc
 
-// ConvergenceCheck is the bounded-liveness oracle of C15 (implemented in converge_impl).
-func ConvergenceCheck(w *World) []*Violation { return nil }
+import (
+	"fmt"
+	"sort"
+
+	"go.etcd.io/raft/v3"
+	pb "go.etcd.io/raft/v3/raftpb"
+	"go.etcd.io/raft/v3/tracker"
+	"verif/refmodel"
+)
+
+// ConvergeTrace, if set, receives a line per suffix round (debugging/replay aid).
+var ConvergeTrace func(string)
+
+// ConvergenceHorizon is the number of election timeouts the fault-free suffix may take.
+const ConvergenceHorizon = 40
+
+// committedConfig computes the configuration after all committed configuration
+// changes, from the node that knows the highest commit index.
+func committedConfig(w *World) (*refmodel.Conf, bool) {
+	best := -1
+	for i, n := range w.Nodes {
+		if n.Stopped {
+			continue
+		}
+		if best < 0 || n.vs().Committed > w.Nodes[best].vs().Committed {
+			best = i
+		}
+	}
+	if best < 0 {
+		return nil, false
+	}
+	vs := w.Nodes[best].vs()
+	cfg := confOfState(vs)
+	log := w.Log(best)
+	for idx := vs.Applied + 1; idx <= vs.Committed; idx++ {
+		e := log.Entry(idx)
+		if e == nil || !isConf(e) {
+			continue
+		}
+		var v2 *pb.ConfChangeV2
+		if e.GetType() == pb.EntryConfChange {
+			c := &pb.ConfChange{}
+			if protoUnmarshal(e.GetData(), c) != nil {
+				return nil, false
+			}
+			v2 = c.AsV2()
+		} else {
+			c := &pb.ConfChangeV2{}
+			if protoUnmarshal(e.GetData(), c) != nil {
+				return nil, false
+			}
+			v2 = c
+		}
+		n, err := cfg.ApplyV2(int(v2.GetTransition()), toChanges(v2.GetChanges()))
+		if err != nil {
+			return nil, false
+		}
+		cfg = n
+	}
+	return cfg, true
+}
+
+type convStatus struct {
+	ok      bool
+	leader  int
+	missing string
+}
+
+func convergedNow(w *World, members map[uint64]bool, fresh []byte) convStatus {
+	st := convStatus{leader: -1}
+	var ref *raft.VerifState
+	for i, n := range w.Nodes {
+		if n.Stopped || !members[n.ID] {
+			continue
+		}
+		vs := n.vs()
+		if vs.State == raft.StateLeader {
+			if st.leader >= 0 {
+				st.missing = fmt.Sprintf("two leaders: %d and %d", w.Nodes[st.leader].ID, n.ID)
+				return st
+			}
+			st.leader = i
+		}
+	}
+	if st.leader < 0 {
+		st.missing = "no leader"
+		return st
+	}
+	lvs := w.Nodes[st.leader].vs()
+	if lvs.LeadTransferee != 0 {
+		st.missing = fmt.Sprintf("leader %d still transferring to %d", lvs.ID, lvs.LeadTransferee)
+		return st
+	}
+	if len(lvs.Voters[1]) > 0 && lvs.AutoLeave {
+		st.missing = "joint auto-leave configuration not left"
+		return st
+	}
+	for _, p := range lvs.Progress {
+		if !members[p.ID] {
+			continue
+		}
+		if p.State == tracker.StateSnapshot {
+			st.missing = fmt.Sprintf("leader still waits for a snapshot to %d", p.ID)
+			return st
+		}
+		if p.Match != lvs.LastIndex {
+			st.missing = fmt.Sprintf("leader has match %d for %d, last index %d", p.Match, p.ID, lvs.LastIndex)
+			return st
+		}
+	}
+	for i, n := range w.Nodes {
+		if n.Stopped || !members[n.ID] {
+			continue
+		}
+		vs := n.vs()
+		if ref == nil {
+			ref = vs
+		}
+		log := w.Log(i)
+		switch {
+		case vs.LastIndex != lvs.LastIndex || log.LastTerm() != w.Log(st.leader).LastTerm():
+			st.missing = fmt.Sprintf("node %d last (%d,t%d) differs from leader's (%d,t%d)", n.ID, vs.LastIndex, log.LastTerm(), lvs.LastIndex, w.Log(st.leader).LastTerm())
+		case vs.Committed != vs.LastIndex:
+			st.missing = fmt.Sprintf("node %d commit %d < last %d", n.ID, vs.Committed, vs.LastIndex)
+		case vs.Applied != vs.Committed || vs.Applying != vs.Applied || n.App.Applied < vs.Applied:
+			st.missing = fmt.Sprintf("node %d applied %d/%d < commit %d", n.ID, vs.Applied, n.App.Applied, vs.Committed)
+		case len(vs.UnstableEntries) > 0 || vs.UnstableSnapshot != nil:
+			st.missing = fmt.Sprintf("node %d still has unstable state", n.ID)
+		case vs.Term != lvs.Term:
+			st.missing = fmt.Sprintf("node %d at term %d, leader at %d", n.ID, vs.Term, lvs.Term)
+		case len(n.AppendQ)+len(n.ApplyQ)+len(n.LocalQ) > 0 || n.Pending != nil:
+			st.missing = fmt.Sprintf("node %d has storage work outstanding", n.ID)
+		}
+		if st.missing != "" {
+			return st
+		}
+		if fresh != nil {
+			found := false
+			for _, e := range log.Ents {
+				if string(e.GetData()) == string(fresh) && e.GetIndex() <= vs.Applied {
+					found = true
+				}
+			}
+			if !found {
+				st.missing = fmt.Sprintf("node %d has not applied the fresh proposal", n.ID)
+				return st
+			}
+		}
+	}
+	if fresh == nil {
+		st.missing = "fresh proposal not accepted yet"
+		return st
+	}
+	st.ok = true
+	return st
+}
+
+// ConvergenceCheck is the bounded-liveness oracle of C15: from the given state,
+// stop all faults, restart nothing (nodes are always up), stop nodes that are
+// not members of the committed configuration, report outstanding snapshot
+// transfers, and run the deterministic fault-free schedule with ticks. Within
+// ConvergenceHorizon election timeouts the group must have converged.
+func ConvergenceCheck(src *World) []*Violation {
+	if src.Dead {
+		return nil
+	}
+	w := src.Clone()
+	w.Mons = nil
+	for k := range w.Budget {
+		w.Budget[k] = 0
+	}
+	w.Apply(Event{Kind: EvHeal})
+	cfg, ok := committedConfig(w)
+	if !ok {
+		return nil
+	}
+	members := map[uint64]bool{}
+	for _, s := range [][]uint64{sortedU(cfg.Incoming), sortedU(cfg.Outgoing), sortedU(cfg.Learners), sortedU(cfg.LearnersNext)} {
+		for _, id := range s {
+			members[id] = true
+		}
+	}
+	maxET := 0
+	for i := range w.Nodes {
+		n := w.own(i)
+		// distinct election timeouts within [ET, 2ET-1] as far as the range allows
+		n.Cfg.Timeout = n.Cfg.ElectionTick + int(n.ID-1)%n.Cfg.ElectionTick
+		w.touch(n)
+		if n.Cfg.ElectionTick > maxET {
+			maxET = n.Cfg.ElectionTick
+		}
+	}
+	syncStopped(w, members)
+	// messages in flight towards stopped nodes are gone
+	kept := w.Net[:0:0]
+	for _, m := range w.Net {
+		if !w.Nodes[m.M.GetTo()-1].Stopped {
+			kept = append(kept, m)
+		}
+	}
+	w.Net = kept
+	// outstanding snapshot transfers are reported
+	for _, n := range w.Nodes {
+		for len(n.SnapObl) > 0 && !n.Stopped {
+			w.Apply(Event{Kind: EvReportSnap, Node: uint8(n.ID), Peer: uint8(n.SnapObl[0])})
+			n = w.Nodes[n.ID-1]
+		}
+	}
+	var fresh []byte
+	status := convStatus{}
+	rounds := ConvergenceHorizon * maxET
+	for r := 0; r < rounds; r++ {
+		if !w.quiesce() {
+			return nil // a panic in the suffix is C14's business
+		}
+		status = convergedNow(w, members, fresh)
+		if ConvergeTrace != nil {
+			extra := ""
+			for _, n := range w.Nodes {
+				extra += fmt.Sprintf(" %d:stopped=%v,lead=%d,el=%d/%d,vote=%d", n.ID, n.Stopped, n.vs().Lead, n.vs().ElectionElapsed, n.Cfg.Timeout, n.vs().Vote)
+			}
+			ConvergeTrace(fmt.Sprintf("round %d: %s | %s |%s", r, status.missing, w.outcome(), extra))
+		}
+		if status.ok {
+			return nil
+		}
+		if fresh == nil && status.leader >= 0 && stableLeader(w, members, status.leader) {
+			rec := w.Apply(Event{Kind: EvPropose, Node: uint8(status.leader + 1), Arg: 1})
+			if rec.OpErr == nil && len(rec.PropPayloads) == 1 {
+				fresh = rec.PropPayloads[0]
+			}
+			if !w.quiesce() {
+				return nil
+			}
+		}
+		// membership may have moved on (e.g. an auto-leave or a pending removal got committed)
+		if c2, ok := committedConfig(w); ok {
+			m2 := map[uint64]bool{}
+			for _, s := range [][]uint64{sortedU(c2.Incoming), sortedU(c2.Outgoing), sortedU(c2.Learners), sortedU(c2.LearnersNext)} {
+				for _, id := range s {
+					m2[id] = true
+				}
+			}
+			syncStopped(w, m2)
+			members, cfg = m2, c2
+		}
+		if r%(8*maxET) == 0 {
+			// A new draw of the randomized election timeouts. Each draw is kept for
+			// several timeouts and the assignment rotates, so that every node is the
+			// fastest for a sustained period (two nodes whose terms differ and who do
+			// not talk to each other only meet if one of them times out faster for a while).
+			for i := range w.Nodes {
+				n := w.own(i)
+				n.Cfg.Timeout = n.Cfg.ElectionTick + ((int(n.ID-1)+r/(8*maxET))%len(w.Nodes))%n.Cfg.ElectionTick
+				w.touch(n)
+			}
+		}
+		for _, n := range w.Nodes {
+			if !n.Stopped {
+				w.Apply(Event{Kind: EvTick, Node: uint8(n.ID)})
+				if w.Dead {
+					return nil
+				}
+			}
+		}
+	}
+	// the documented exception: a voter removed or demoted out of a two-voter set
+	if twoVoterException(w, cfg) {
+		src.Counters["c15_two_voter_exception_skipped"]++
+		return nil
+	}
+	return []*Violation{{"C15", "converges-within-horizon", fmt.Sprintf("after %d election timeouts without faults: %s; final %s", ConvergenceHorizon, status.missing, w.outcome())}}
+}
+
+// syncStopped stops nodes that were removed from the committed configuration (they
+// still believe to be members) and (re)starts nodes that are members. Nodes that
+// have never been part of any configuration keep running: they are inert.
+func syncStopped(w *World, members map[uint64]bool) {
+	for i := range w.Nodes {
+		n := w.Nodes[i]
+		vs := n.vs()
+		believes := len(vs.Voters[0])+len(vs.Voters[1])+len(vs.Learners)+len(vs.LearnersNext) > 0
+		switch {
+		case !members[n.ID] && believes && !n.Stopped:
+			w.Apply(Event{Kind: EvStop, Node: uint8(n.ID)})
+		case members[n.ID] && n.Stopped:
+			n = w.own(i)
+			n.Stopped = false
+			w.touch(n)
+		}
+	}
+}
+
+// stableLeader: every running member follows the one leader in its term.
+func stableLeader(w *World, members map[uint64]bool, leader int) bool {
+	lvs := w.Nodes[leader].vs()
+	for _, n := range w.Nodes {
+		if n.Stopped || !members[n.ID] {
+			continue
+		}
+		vs := n.vs()
+		if vs.Term != lvs.Term || vs.Lead != lvs.ID {
+			return false
+		}
+	}
+	return true
+}
+
+func sortedU(m map[uint64]bool) []uint64 {
+	s := make([]uint64, 0, len(m))
+	for k := range m {
+		s = append(s, k)
+	}
+	sort.Slice(s, func(a, b int) bool { return s[a] < s[b] })
+	return s
+}
+
+// twoVoterException recognises the README's caveat: some running node still uses a
+// voter set of exactly two of which one is stopped (it was removed or demoted).
+func twoVoterException(w *World, cfg *refmodel.Conf) bool {
+	for _, n := range w.Nodes {
+		if n.Stopped {
+			continue
+		}
+		vs := n.vs()
+		for _, set := range vs.Voters {
+			if len(set) == 2 {
+				for _, id := range set {
+					if int(id) <= len(w.Nodes) && w.Nodes[id-1].Stopped {
+						return true
+					}
+				}
+			}
+		}
+	}
+	return false
+}
+
+// quiesce runs the default scheduler until nothing is pending; false if a node panicked.
+func (w *World) quiesce() bool {
+	for i := 0; i < 5000; i++ {
+		ev, ok := w.defaultChoice()
+		if !ok {
+			return !w.Dead
+		}
+		w.Apply(ev)
+	}
+	return !w.Dead
+}
